@@ -332,6 +332,15 @@ class UnitBuild:
             if info['kind'] == 'leaf':
                 b = cenv.get(cn)
                 if b is None:
+                    # sizeof...(pack) spelled with the pack name of an out-of-line definition (TS_ for TStates): a record of this
+                    # library has one parameter pack, so it is the constant the unit binds under the in-class name -- both names,
+                    # if both occur, denote the same number (checked against the witness value by the native cross-check)
+                    m = re.match(r'^(.*__sizeof_)\w+$', cn)
+                    sib = [k for k in cenv if m and k.startswith(m.group(1)) and k != cn]
+                    if len(sib) == 1:
+                        b = ('expr', sib[0]) if sib[0] in ctx.consts else cenv[sib[0]]
+                        self.notes.append('%s: pack size under another parameter name, bound like %s' % (cn, sib[0]))
+                if b is None:
                     raise Unsupported('unbound symbolic constant %s (concrete value in witness: %s); add it to the unit\'s consts' % (cn, info.get('concrete')))
                 if b[0] == 'range' and native:
                     if info.get('concrete') is None:
